@@ -145,6 +145,9 @@ func convertToDataNode(path []string, name string, node unserialized, sn schema.
 				if len(values) > 0 && (len(values) != 1 || values[0] != "") {
 					return nil, schema.NewEmptyLeafValueError(node.name(), path)
 				}
+			} else if len(values) != 1 {
+				// Any other leaf has exactly one value
+				return nil, schema.NewMissingValueError(path)
 			}
 		}
 		// Validate the values
